@@ -251,11 +251,13 @@ Conforms(s, out) ==
 Why(s, out) ==
     IF out.res = "error" THEN ""
     ELSE IF out.res # "ok" THEN       \* a panic: name the staged feature that is the likely site
-         IF \E pr \in DOMAIN s.redeemers : s.redeemers[pr].ex = None THEN "panic/redeemer-without-ex-units"
-         ELSE IF \E k \in DOMAIN s.mint : s.mint[k] = 0 THEN "panic/zero-mint-amount"
-         ELSE IF \E o \in ToSet(s.outputs) \cup ToSet(s.collout) : \E k \in AssetKeys(o.adds) : AssetQty(o.adds, k) = 0
-              THEN "panic/zero-output-asset"
-         ELSE "panic/other"
+         LET zm == \E k \in DOMAIN s.mint : s.mint[k] = 0
+             zo == \E o \in ToSet(s.outputs) \cup ToSet(s.collout) : \E k \in AssetKeys(o.adds) : AssetQty(o.adds, k) = 0
+         IN  IF \E pr \in DOMAIN s.redeemers : s.redeemers[pr].ex = None THEN "panic/redeemer-without-ex-units"
+             ELSE IF zm /\ zo THEN "panic/zero-mint-amount-or-zero-output-asset"
+             ELSE IF zm THEN "panic/zero-mint-amount"
+             ELSE IF zo THEN "panic/zero-output-asset"
+             ELSE "panic/other"
     ELSE LET tx == out.tx IN
          IF out.id # out.body_hash THEN "id"
     ELSE IF ToSet(tx.inputs) # ToSet(s.inputs) THEN "inputs"
